@@ -415,6 +415,20 @@ def post_general_point(ctx, call):
 
 def post_is_perpendicular(ctx, call):
     if call.exc is not None:
+        # two lines of space that lie in one plane (meeting or parallel, distinct) have an answer: a raise is judged for single pairs
+        l, m = call.args[0], call.args[1]
+        try:
+            if len(call.args) == 2 and not call.kwargs and not S.coll_shape(l) and not S.coll_shape(m) and R.finite(l.array) and R.finite(m.array):
+                g1, g2 = sub_geom(l, l.array), sub_geom(m, m.array)
+                if g1 is not None and g2 is not None and g1[0] == g2[0] == "line" and len(g1[2]) == 3:
+                    u, v, w = g1[2] / np.linalg.norm(g1[2]), g2[2] / np.linalg.norm(g2[2]), g2[1] - g1[1]
+                    coplanar = abs(np.linalg.det(np.stack([u, v, w]))) <= 1e-9 * max(1.0, np.linalg.norm(w))
+                    distinct = np.linalg.norm(np.cross(u, v)) > 1e-9 or np.linalg.norm(np.cross(u, w)) > 1e-9 * max(1.0, np.linalg.norm(w))
+                    if coplanar and distinct:
+                        ctx.judge("is_perpendicular", False, [l, m], what=f"is_perpendicular raised {type(call.exc).__name__}: {str(call.exc)[:80]} for two distinct coplanar lines of space",
+                                  op="is_perpendicular", feat={"exc": type(call.exc).__name__}, nontrivial=True)
+        except Exception:
+            pass
         return
     l, m = call.args[0], call.args[1]
     res = np.asarray(call.result)
@@ -846,6 +860,11 @@ def g_constructions3d(ctx, rng, i):
     _try(l.is_parallel, g.Line(p_off, g.Point(p_off.normalized_array + (c - a))))
     _try(l.is_coplanar, l)
     _try(g.is_perpendicular, l, m)
+    # two distinct parallel lines of space (coplanar, never perpendicular), alone and as one pair of a collection
+    l_par = g.Line(p_off, g.Point(p_off.normalized_array + (b - a)))
+    _try(g.is_perpendicular, l, l_par)
+    _try(g.is_perpendicular, l_par, l)
+    _try(g.is_perpendicular, g.LineCollection(np.stack([l.array, l.array])), g.LineCollection(np.stack([l_par.array, m.array])))
     _try(g.is_perpendicular, e, g.Plane(gen.nonzero_vec(rng, 4, 4)))
     n = e.array[:3]
     _try(g.is_perpendicular, e, g.Plane(np.append(np.cross(n, b[:3] - a[:3]), 1)))
